@@ -68,7 +68,8 @@ def signature(row, inv):
     if row["k"] == "fuzz":
         return "fuzz format=%s mode=%s obs=%s inv=%s" % (row["format"], row["mode"], obs_of(row), inv)
     c = row["c"]
-    return "case kind=%s format=%s mode=%s cls=%s obs=%s inv=%s" % (c["kind"], c["format"], c["mode"], c["cls"], obs_of(row), inv)
+    arg = (" arg=" + ",".join(str(a) for a in c["arg"])) if c.get("arg") else ""
+    return "case kind=%s format=%s mode=%s cls=%s%s obs=%s inv=%s" % (c["kind"], c["format"], c["mode"], c["cls"], arg, obs_of(row), inv)
 
 
 def describe(row, inv):
@@ -78,7 +79,7 @@ def describe(row, inv):
     c = row["c"]
     evs = " ".join("%s(%s)" % (e["ev"], e["arg"][:90]) for e in row["evs"])
     return "case %s: real code produced [%s], which is not a behaviour of Malformed.tla for this case (%s); %s" % (
-        {k: c[k] for k in ("format", "mode", "np", "cls", "nt")}, evs, inv,
+        {k: c[k] for k in ("format", "mode", "np", "cls", "nt", "arg")}, evs, inv,
         {k: v for k, v in (row.get("info") or {}).items() if k not in ("file",) and v not in ("", None)})
 
 
@@ -104,7 +105,8 @@ def validate(v, trace_path, timeout=900):
         if inv == "KnownCase":
             raise vlib.MachineryError("driver echoed a case the specification does not enumerate: %r" % (row.get("c"),))
         bad += 1
-        name = "case_%s_%s_%s_%s_%d_%d.json" % (row["c"]["format"], row["c"]["mode"], row["c"]["cls"], inv, row["c"]["np"], row["c"]["nt"]) \
+        name = "case_%s_%s_%s%s_%s_%d_%d.json" % (row["c"]["format"], row["c"]["mode"], row["c"]["cls"],
+                                                  "".join("-" + str(a) for a in row["c"].get("arg", [])), inv, row["c"]["np"], row["c"]["nt"]) \
             if row["k"] == "case" else "fuzz_%s_%s_%s.json" % (row["format"], row["mode"], row.get("seed"))
         v.violation(signature(row, inv), describe(row, inv), replay_obj={"invariant": inv, "row": row}, replay_name=name)
     if tr.violation and not seen:
